@@ -17,7 +17,7 @@ TEXTS = {
                 "(C01_builder_ontologies_exact); Arena::insert and every successful add_parent keep "
                 "ids unique, links resolving and children the exact inverse of parents, add_parent adds exactly one link. Plus soundness of the "
                 "executable statement closure_ok, which the check evaluates inside Coq on the real crate's observation of every generated "
-                "ontology (Builder, binary v1-v3, hp.obo, sub_ontology paths); the transcription is diffed against the crate.",
+                "ontology (Builder, binary v1-v3, hp.obo, sub_ontology paths); the transcription is diffed against the crate. EACH CONSTRUCTION PATH (C01_every_constructed_ontology): for every ontology produced by a Builder script, a JAX load (closed hp.obo), from_bytes on a well-formed file, or sub_ontology of any such ontology (nested to any depth) the ancestor caches are exactly the transitive closure, children = parents^-1 and the graph is acyclic.",
         "design_ref": "DESIGN.md §4 C01, §9",
         "note": NOTE_COMMON + "Acyclic inputs only (the property's quantifier). Totality of the fuelled recursion on DAGs is not a theorem (a fuel exhaustion would show as a disagreement).",
         "technique": TECH,
@@ -36,7 +36,7 @@ TEXTS = {
                 "is_a graph is acyclic. Record side: annotate_* adds the term to the record's direct "
                 "set only. Plus "
                 "soundness of the executable statement kind_ok / recs_ok, evaluated on the real crate's observation for the three kinds "
-                "separately (records vs supplied facts, id-map probes for kind leakage); the transcription is diffed against the crate.",
+                "separately (records vs supplied facts, id-map probes for kind leakage); the transcription is diffed against the crate. EACH CONSTRUCTION PATH (C02_every_constructed_ontology): the same inherited-annotation statement, distinct record ids and records naming stored terms for every ontology produced by any public constructor (Builder, JAX loaders, from_bytes, sub_ontology, nested).",
         "design_ref": "DESIGN.md §4 C02, §9", "note": NOTE_COMMON + "Acyclic inputs only.", "technique": TECH,
     },
     "C03": {
@@ -51,7 +51,7 @@ TEXTS = {
                 "per kind, calculate(N, n) with N the number of records of the kind and n the size of the term's annotation set, which is "
                 "exactly the set of ids with a direct annotation at the term or at a descendant. "
                 "The float evaluation is executed bit-exactly (Flocq) against the crate with the runtime's logf as an oracle table: the float "
-                "layer is partial (no theorem about logf).",
+                "layer is partial (no theorem about logf). EACH CONSTRUCTION PATH (C03_every_constructed_ontology): IC = calculate(N, n) for every term and kind of every ontology produced by any public constructor.",
         "design_ref": "DESIGN.md §4 C03, §2.6",
         "note": NOTE_COMMON + "Axioms: the four standard-library axioms behind Coq Reals (sig_not_dec, sig_forall_dec, functional_extensionality_dep, classic). Flocq binary32 = Rust f32 arithmetic; logf sampled.",
         "technique": TECH,
@@ -65,7 +65,7 @@ TEXTS = {
                 "API of the finished ontology (every resolving iterator of every term and record, each of which panics on an id that does not "
                 "resolve) returns. The check runs every "
                 "generated call history twice on the real Builder (with and without its failing calls), demands identical read-API dumps, "
-                "exact error codes (fails iff an absent term is named), a panic-free complete read-API walk, and agreement with the model. NO DANGLING IDS ON EVERY CONSTRUCTION PATH: C15_wellformed_ontologies_walk_returns (any ontology with exact caches, children = parents^-1, inherited annotation sets and records naming stored terms), hence C15_jax_ontologies_walk_returns, C15_sub_ontologies_walk_returns, C15_binary_ontologies_walk_returns.",
+                "exact error codes (fails iff an absent term is named), a panic-free complete read-API walk, and agreement with the model. NO DANGLING IDS ON EVERY CONSTRUCTION PATH: C15_wellformed_ontologies_walk_returns (any ontology with exact caches, children = parents^-1, inherited annotation sets and records naming stored terms), hence C15_jax_ontologies_walk_returns, C15_sub_ontologies_walk_returns, C15_binary_ontologies_walk_returns. C15_every_constructed_ontology_walk_returns: the same for the inductive closure of all public constructors.",
         "design_ref": "DESIGN.md §4 C15, §9", "note": NOTE_COMMON, "technique": TECH,
     },
     "C16": {
@@ -99,7 +99,7 @@ TEXTS = {
                 "'value of the documented formula', finite and >= 0 are decided per input by spec_C04, which recomputes all 24 scores "
                 "of every ordered pair from the crate's own observation (ancestor sets, ICs, shortest distances, annotation sets) in binary32 "
                 "and demands bit equality, equality under argument swap, no NaN / infinity / negative value and the special cases; the "
-                "transcription is diffed bit for bit against the crate. No theorem covers float rounding / overflow; expf is an oracle.",
+                "transcription is diffed bit for bit against the crate. No theorem covers float rounding / overflow; expf is an oracle. C04_constructed_scores_nonnegative: the same for every ontology produced by any public constructor.",
         "design_ref": "DESIGN.md §4 C04",
         "note": NOTE_COMMON + "Flocq binary32 = Rust f32 arithmetic; logf / expf sampled.",
         "technique": TECH,
@@ -155,7 +155,7 @@ TEXTS = {
                 "C07_jax_roundtrip_complete discharges these for every ontology from_standard / from_standard_transitive loads from files whose "
                 "hp.obo has a stanza for every is_a target, C07_sub_ontology_roundtrip_complete for every sub_ontology of an ontology with exact "
                 "caches. Additionally decided per generated ontology by running the encode/decode transcription against as_bytes/from_bytes (bytes compared "
-                "record-sorted, reload dumped through the whole read API, Ontology::compare consulted) and by spec_C07 on the crate's observation.",
+                "record-sorted, reload dumped through the whole read API, Ontology::compare consulted) and by spec_C07 on the crate's observation. ALL REACHABLE ONTOLOGIES (C07_every_constructed_ontology_roundtrips): the round trip for every ontology produced by any public constructor, nested sub-ontologies included.",
         "design_ref": "DESIGN.md §4 C07, §9", "note": NOTE_COMMON + "String::from_utf8 / is_char_boundary modelled by byte-level predicates.", "technique": TECH,
     },
     "C08": {
